@@ -113,7 +113,7 @@ def oracle_drift(args):
         spec = dict(args)
         spec["dt"] = args["dt"] / 2 ** k
         spec["steps"] = args["steps"] * 2 ** k
-        spec["options"] = dict(args.get("options", {}), zeta_list=[1.0] * (spec["steps"] + 5))
+        spec["options"] = dict(args.get("options", {}), zeta_list=[1e300] * (spec["steps"] + 5))
         traces, _ = _run_spec(spec)
         e = np.array([s["energy"] for s in traces[0]])
         drifts.append(float(np.max(np.abs(e - e[0]))))
